@@ -216,7 +216,14 @@ def py_equal(a, b):
     if isinstance(a, list) and isinstance(b, list):
         return len(a) == len(b) and all(py_equal(x, y) for x, y in zip(a, b))
     if isinstance(a, dict) and isinstance(b, dict):
-        return len(a) == len(b) and all(py_equal(x, y) and py_equal(a[x], b[y]) for x, y in zip(a, b))
+        # DBus dicts are unordered: compare as mappings
+        if len(a) != len(b):
+            return False
+        for k, v in a.items():
+            hit = [k2 for k2 in b if py_equal(k, k2)]
+            if len(hit) != 1 or not py_equal(v, b[hit[0]]):
+                return False
+        return True
     if isinstance(a, (list, dict)) or isinstance(b, (list, dict)):
         return False
     if (a is None) != (b is None):
@@ -252,7 +259,19 @@ def gen_scenario(rng, small=False):
         if not small and len(ifaces) == 2 and rng.random() < 0.5:
             # the same member name on both interfaces (needs the `interface=` keyword or picks the first)
             ifaces[1]['methods'].append([ifaces[0]['methods'][0][0], rng.choice(sigs), rng.choice(sigs), False])
-        exports.append({'client': client, 'path': path, 'ifaces': ifaces})
+        spec = {'client': client, 'path': path, 'ifaces': ifaces}
+        if not small:
+            has_dup = any(_dup_member(spec, m[0]) for i in ifaces for m in i['methods'])
+            r = rng.random()
+            if has_dup and r < 0.5:
+                spec['layout'] = 'mixed'          # plain dbus_<m> for the first interface, decorated for the second
+            elif r < 0.3:
+                spec['layout'] = 'inherit'        # functions spread over base class and sub-class, one overridden
+                spec['split'] = [rng.random() < 0.5 for _ in range(4)]
+                spec['override'] = rng.randrange(6) if rng.random() < 0.6 else None
+            if rng.random() < 0.35:
+                spec['wkname'] = 'org.t.Svc%d' % e
+        exports.append(spec)
     calls = []
     for k in range(rng.choice([1, 2]) if small else rng.choice([1, 2, 2, 3, 3])):
         ex = rng.randrange(len(exports))
@@ -281,9 +300,50 @@ def gen_scenario(rng, small=False):
         if not small and rng.random() < 0.04 and meth[1] in ('i', 's', 'x'):
             args = [[1, 2]]
             bad_args = True
-        calls.append({'caller': rng.randrange(n), 'export': ex, 'iface': iface['name'], 'member': meth[0],
-                      'how': how, 'wrong': wrong, 'kw': kw, 'bad_args': bad_args, 'order': order,
-                      'args': [valcodec.to_line(a) for a in args]})
+        call = {'caller': rng.randrange(n), 'export': ex, 'iface': iface['name'], 'member': meth[0],
+                'how': how, 'wrong': wrong, 'kw': kw, 'bad_args': bad_args, 'order': order,
+                'args': [valcodec.to_line(a) for a in args]}
+        if not small:
+            r = rng.random()
+            others = [i2['name'] for i2 in spec['ifaces']
+                      if i2['name'] != iface['name'] and not any(m[0] == meth[0] for m in i2['methods'])]
+            if wrong is None and not bad_args and r < 0.10:
+                # calls the proxy itself must refuse (AttributeError): a member no interface has, an `interface=`
+                # that is not listed, or one that is listed but lacks the member
+                mode = rng.choice(['nomember', 'unlisted', 'lacking' if others else 'unlisted'])
+                call['refuse'] = mode
+                if mode == 'unlisted':
+                    call['kw'] = 'org.t.NotListed'
+                elif mode == 'lacking':
+                    call['kw'] = rng.choice(others)
+            elif wrong is None and kw is None and r < 0.16:
+                call['kw'] = ''                    # falsy: like no keyword
+            if rng.random() < 0.15:
+                call['timeout'] = 30
+            if spec.get('wkname') and rng.random() < 0.6:
+                call['dest_name'] = True
+            # a later call may go through the SAME proxy object as an earlier one
+            prev = [k0 for k0, c0 in enumerate(calls)
+                    if c0['export'] == ex and c0['wrong'] is None and c0['how'] in ('explicit', 'introspect')
+                    and c0.get('reuse') is None and c0.get('after') is None]
+            if prev and wrong is None and rng.random() < 0.4:
+                k0 = rng.choice(prev)
+                c0 = calls[k0]
+                call.update(reuse=k0, after=k0, caller=c0['caller'], how=c0['how'], order=c0['order'],
+                            dest_name=c0.get('dest_name', False))
+                # re-select the method under the proxy's listing order
+                listed = list(reversed(spec['ifaces'])) if c0['order'] == 'rev' else spec['ifaces']
+                if not call.get('refuse'):
+                    for i2 in listed:
+                        if call['kw'] and i2['name'] != call['kw']:
+                            continue
+                        hit = [m for m in i2['methods'] if m[0] == meth[0]]
+                        if hit:
+                            call['iface'] = i2['name']
+                            call['args'] = [valcodec.to_line(a) for a in gen_body(rng, hit[0][1])]
+                            call['bad_args'] = False
+                            break
+        calls.append(call)
     plans = []
     for e in exports:
         if small:
@@ -292,6 +352,8 @@ def gen_scenario(rng, small=False):
         else:
             plans.append([rng.choice(BEHAVIOURS) for _ in range(4)])
     scn = {'n': n, 'exports': exports, 'calls': calls, 'plans': plans, 'vseed': rng.randrange(10**9)}
+    if not small:
+        scn['big_endian'] = [c for c in range(n) if rng.random() < 0.2]
     if not small and len(exports) >= 2 and rng.random() < 0.6:
         # methods of export 0 may RELAY: call a method of export 1 through a proxy from inside the invocation and
         # answer only when that nested call has completed (re-entrancy: a call is sent inside the dispatch, the
@@ -342,6 +404,35 @@ def gen_revision_scenario(rng):
             'family': 'revisions'}
 
 
+def doc_bound(classes, iname, member):
+    """Which function the DOCUMENTED resolution order of DBusObject.executeMethod binds to (interface, member):
+    `dbus_<member>` serves every interface unless it is decorated for another one; otherwise the function
+    decorated for (interface, member), classes searched in MRO order.  `classes` = [[(attr, fid, deco)]].
+    Written from the documentation (DESIGN C10 "Binding"), independent of the model."""
+    def getattr_(name):
+        for c in classes:
+            for a, fid, deco in c:
+                if a == name:
+                    return fid, deco
+        return None
+
+    def decorated():
+        for c in classes:
+            hit = None
+            for a, fid, deco in c:
+                if deco == (iname, member):
+                    hit = a
+            if hit is not None:
+                return getattr_(hit)
+        return None
+    m = getattr_('dbus_' + member) or decorated()
+    if m is None:
+        return None
+    if m[1] is not None and m[1][0] != iname:
+        m = decorated()
+    return m[0] if m else None
+
+
 def _dup_member(spec, member):
     return sum(1 for i in spec['ifaces'] for m in i['methods'] if m[0] == member) > 1
 
@@ -359,7 +450,18 @@ class BadNameError(Exception):
 
 
 EXC_CLASSES = {'BoomError': BoomError, 'NamedError': NamedError, 'BadNameError': BadNameError}
-EXC_TEXTS = ['boom', '', 'café \U0001f600', 'two\nlines', 'x' * 60]
+EXC_ARGS = [['boom'], [''], ['café \U0001f600'], ['two\nlines'], ['x' * 60], [], ['a', 'b'], [5], ['nul\x00inside'],
+            ['boom']]
+
+
+def exc_text(cls, args):
+    """`err.getErrorMessage()` of the Failure wrapping cls(*args)"""
+    return str(EXC_CLASSES[cls](*args))
+
+
+def escaped(text):
+    """what send_error makes of the text (repair C10-01)"""
+    return text.replace('\0', '\\x00')
 
 
 # ============================================================================ running one scenario
@@ -419,7 +521,7 @@ class Run:
         DBusInterface.knownInterfaces.clear()
         self.net = net = Net()
         n = scn['n'] + (1 if self.catch_all else 0)
-        self.conns = net.connect_all(n)
+        self.conns = net.connect_all(n, big_endian=set(scn.get('big_endian', [])))
         self.name_of = [c.busName for c in self.conns]
         self.idx_of = {nm: i for i, nm in enumerate(self.name_of)}
         self.exp_objs = []
@@ -427,34 +529,96 @@ class Run:
         self.tok_count = [0] * n
         self.deferreds = {}      # (client, tok) -> (Deferred, result)
         self.exp_decl = []
+        self.layouts = []        # per export: the generated classes in MRO order: [[(attr, fid, deco)]]
+        self.func_ids = {}
+        fid_next = [1]
         for ei, spec in enumerate(scn['exports']):
             j = spec['client']
+            layout = spec.get('layout', 'plain')
             ifs = []
-            attrs = {}
             for i in spec['ifaces']:
                 ifs.append(DBusInterface(i['name'], *[Method(m[0], arguments=m[1], returns=m[2])
                                                       for m in i['methods']], noRegister=True))
-            attrs['dbusInterfaces'] = ifs
+            made = []            # (attr name, function, fid, deco)
+            first_with = {}
+            for ii, i in enumerate(spec['ifaces']):
+                for m in i['methods']:
+                    first_with.setdefault(m[0], ii)
             for ii, i in enumerate(spec['ifaces']):
                 for m in i['methods']:
                     nargs = len(complete_types(m[1]))
                     params = ['a%d' % k for k in range(nargs)]
                     dup = _dup_member(spec, m[0])
-                    fname = ('impl_%d_%s' % (ii, m[0])) if dup else 'dbus_' + m[0]
-                    src = 'def %s(self, %s):\n    return _hook(self, %r, %r, [%s], %s)\n' % (
-                        fname, ', '.join(params + (['dbusCaller=None'] if m[3] else [])), i['name'], m[0],
-                        ', '.join(params), 'dbusCaller' if m[3] else '"-"')
-                    env = {'_hook': self._make_hook(ei)}
-                    exec(src, env)
-                    f = env[fname]
-                    if dup:
+                    decorated = dup and not (layout == 'mixed' and first_with[m[0]] == ii)
+                    fname = ('impl_%d_%s' % (ii, m[0])) if decorated else 'dbus_' + m[0]
+                    fid = fid_next[0]
+                    fid_next[0] += 1
+                    if layout == 'mixed' and dup and not decorated:
+                        # the plain function also serves the same member of the other interface (documented binding
+                        # order), whose arity may differ: it takes whatever it is given
+                        f = self._make_func(ei, fname, ['*args'], False, fid, i['name'], m[0])
+                    else:
+                        f = self._make_func(ei, fname, params, m[3], fid, i['name'], m[0])
+                    deco = None
+                    if decorated:
                         f = objects.dbusMethod(i['name'], m[0])(f)
+                        deco = (i['name'], m[0])
+                    f._fid = fid
+                    made.append((fname, f, fid, deco))
+            if layout == 'inherit':
+                # the functions are spread over a base class and a sub-class; one function is defined in both
+                # (the sub-class's definition wins; the base one must never run)
+                split = spec.get('split', [])
+                base_attrs = {'dbusInterfaces': ifs}
+                sub_attrs = {}
+                base_l, sub_l = [], []
+                for k, (fname, f, fid, deco) in enumerate(made):
+                    in_sub = split[k % len(split)] if split else (k % 2 == 1)
+                    (sub_attrs if in_sub else base_attrs)[fname] = f
+                    (sub_l if in_sub else base_l).append((fname, fid, deco))
+                ov = spec.get('override')
+                if ov is not None and made:
+                    fname, f, fid, deco = made[ov % len(made)]
+                    if fname in sub_attrs:
+                        fid2 = fid_next[0]
+                        fid_next[0] += 1
+                        i_name, m_name = [(i['name'], m[0]) for i in spec['ifaces'] for m in i['methods']][ov % len(made)]
+                        m_decl = [m for i in spec['ifaces'] for m in i['methods']][ov % len(made)]
+                        g = self._make_func(ei, fname, ['a%d' % k for k in range(len(complete_types(m_decl[1])))],
+                                            m_decl[3], fid2, i_name, m_name)
+                        if deco:
+                            g = objects.dbusMethod(*deco)(g)
+                        g._fid = fid2
+                        base_attrs[fname] = g
+                        base_l.append((fname, fid2, deco))
+                base = type('Base%d' % ei, (objects.DBusObject,), base_attrs)
+                klass = type('Exp%d' % ei, (base,), sub_attrs)
+                self.layouts.append([sub_l, base_l])
+            else:
+                attrs = {'dbusInterfaces': ifs}
+                for fname, f, fid, deco in made:
                     attrs[fname] = f
-            klass = type('Exp%d' % ei, (objects.DBusObject,), attrs)
+                klass = type('Exp%d' % ei, (objects.DBusObject,), attrs)
+                self.layouts.append([[(fname, fid, deco) for fname, f, fid, deco in made]])
             obj = klass(spec['path'])
             with net.as_peer(j):
                 self.conns[j].exportObject(obj)
             self.exp_objs.append(obj)
+        # well-known names: the exporter owns the name, another client waits in the queue behind it
+        for ei, spec in enumerate(scn['exports']):
+            nm = spec.get('wkname')
+            if nm:
+                j = spec['client']
+                with net.as_peer(j):
+                    self.conns[j].requestBusName(nm).addErrback(lambda f: None)
+                net.pump()
+                q = (j + 1) % scn['n']
+                if q != j:
+                    with net.as_peer(q):
+                        self.conns[q].requestBusName(nm, doNotQueue=False, errbackUnlessAcquired=False
+                                                     ).addErrback(lambda f: None)
+                    net.pump()
+                self.idx_of[nm] = j
         if self.catch_all:
             # a further client holding match rules for every message type and no other constraint: a third party
             # that must not see, let alone answer, the unicast traffic of the others (bus routing is C14's)
@@ -474,7 +638,7 @@ class Run:
             obj = self.exp_objs[ei]
             ifl = list(obj.getInterfaces())
             self.exp_decl.append(ifl)
-            self.lines.append('export %d %s %s' % (j, hs(spec['path']), self.ifaces_text(ifl)))
+            self.lines.append('export %d %s %s' % (j, hs(spec['path']), self.classes_text(obj)))
             self.expect.append('ok')
         seen = set()
         for ei, spec in enumerate(scn['exports']):
@@ -495,6 +659,39 @@ class Run:
             self.lines.append('badname %s' % hs(nm))
             self.expect.append('ok')
 
+    def classes_text(self, obj):
+        """The class chain of the real object, as `executeMethod` sees it: __mro__ order, per class whether it
+        defines dbusInterfaces and the functions of its __dict__ (id, decoration)."""
+        import inspect
+        chain = [c for c in type(obj).__mro__ if c is not object]
+        out = ['%d' % len(chain)]
+        for c in chain:
+            if 'dbusInterfaces' in c.__dict__:
+                out += ['1', self.ifaces_text(c.__dict__['dbusInterfaces'])]
+            else:
+                out += ['0']
+            fs = [(nm, f) for nm, f in c.__dict__.items() if inspect.isfunction(f)]
+            out.append('%d' % len(fs))
+            for nm, f in fs:
+                fid = getattr(f, '_fid', None)
+                if fid is None:
+                    fid = self.func_ids.setdefault(f, 1000 + len(self.func_ids))
+                if hasattr(f, '_dbusInterface'):
+                    out += [hs(nm), '%d' % fid, hs(f._dbusInterface), hs(f._dbusMethod)]
+                else:
+                    out += [hs(nm), '%d' % fid, '~', '~']
+        return ' '.join(out)
+
+    def _make_func(self, ei, fname, params, wants_caller, fid, iface, member):
+        src = 'def %s(self, %s):\n    return _hook(self, %d, %r, %r, [%s], %s)\n' % (
+            fname, ', '.join(params + (['dbusCaller=None'] if wants_caller else [])), fid, iface, member,
+            ', '.join(params), 'dbusCaller' if wants_caller else '"-"')
+        if params == ['*args']:
+            src = 'def %s(self, *args):\n    return _hook(self, %d, %r, %r, list(args), "-")\n' % (fname, fid, iface, member)
+        env = {'_hook': self._make_hook(ei)}
+        exec(src, env)
+        return env[fname]
+
     @staticmethod
     def ifaces_text(ifl):
         out = ['%d' % len(ifl)]
@@ -509,7 +706,7 @@ class Run:
         spec = self.scn['exports'][ei]
         j = spec['client']
 
-        def hook(obj, iface, member, args, caller):
+        def hook(obj, fid, iface, member, args, caller):
             k = self.inv_count[j]
             self.inv_count[j] += 1
             plan = self.scn['plans'][ei]
@@ -517,8 +714,9 @@ class Run:
             vr = random.Random('%d/%d/%d' % (self.scn['vseed'], j, k))
             decl = [m for i in spec['ifaces'] if i['name'] == iface for m in i['methods'] if m[0] == member][0]
             sig_out = decl[2]
-            rec = {'export': ei, 'client': j, 'iface': iface, 'member': member, 'args': list(args),
-                   'caller': caller, 'kind': kind, 'sigOut': sig_out, 'nret': len(complete_types(sig_out))}
+            rec = {'export': ei, 'client': j, 'iface': iface, 'member': member, 'args': list(args), 'impl': fid,
+                   'caller': caller, 'kind': kind, 'sigOut': sig_out, 'nret': len(complete_types(sig_out)),
+                   'own_sigOut': sig_out}
             if kind == 'relay' and 'relay' not in self.scn:
                 kind = 'value'
             rec['kind'] = kind
@@ -536,7 +734,8 @@ class Run:
             else:
                 cls = {'raise-plain': 'BoomError', 'raise-named': 'NamedError', 'raise-badname': 'BadNameError',
                        'defer-raise': vr.choice(['BoomError', 'NamedError'])}[kind]
-                rec['result'] = ('raised', cls, vr.choice(EXC_TEXTS))
+                eargs = vr.choice(EXC_ARGS)
+                rec['result'] = ('raised', cls, exc_text(cls, eargs), eargs)
             self.net.log.append(('inv', 'cli:%d' % j, rec))
             self.invoked += 1
             if kind == 'relay':
@@ -562,7 +761,7 @@ class Run:
                 return defer.succeed(rec['result'][1])      # a Deferred that has already fired: like a plain return
             if rec['result'][0] == 'value':
                 return rec['result'][1]
-            raise EXC_CLASSES[rec['result'][1]](rec['result'][2])
+            raise EXC_CLASSES[rec['result'][1]](*rec['result'][3])
         return hook
 
     # -------------------------------------------------------------- rendering implementation events
@@ -572,11 +771,11 @@ class Run:
         return '%d' % self.idx_of[name] if name in self.idx_of else '?' + name
 
     def show_msg(self, m, sender_override=None, sent=False):
+        if m.get('t') == 'unparsable':
+            return 'unparsable(%s)' % m.get('exc')
         # a body is only on the wire under a non-empty signature (`if self.signature:` in _marshal)
         body = m['body'] if (m['body'] is not None and m['sig']) else []
-        if sent and body:
-            # the message object of a sender still holds the values as passed; the wire holds their encoding
-            body = codec_norm(m['sig'], body)
+        # (messages a peer writes are observed on the byte pipe and parsed: `body` is what is on the wire)
         vals = '[' + ','.join(tok(v) for v in body) + ']'
         sender = self.who(m['sender']) if sender_override is None else '%d' % sender_override
         if m['t'] == 'call':
@@ -590,6 +789,20 @@ class Run:
         else:
             return 'other(%s)' % m['t']
         return 'reply(%d,%d,%s,%s,%s)' % (m['serial'], m['rs'], sender, self.who(m['dest']), c)
+
+    def dispatch_decl(self, rec, m):
+        """send_reply uses the return signature of the method the CALL was dispatched to (interface and member of
+        the message), which need not be the one the function that ran was written for (mixed binding)."""
+        spec = self.scn['exports'][rec['export']]
+        rec['call_iface'], rec['call_member'] = m.get('iface'), m.get('member')
+        for i in spec['ifaces']:
+            if (m.get('iface') and i['name'] == m['iface']) or (not m.get('iface') and
+                                                                any(x[0] == m.get('member') for x in i['methods'])):
+                for x in i['methods']:
+                    if x[0] == m.get('member'):
+                        rec['sigOut'] = x[2]
+                        rec['nret'] = len(complete_types(x[2]))
+                break
 
     def result_text(self, rec):
         res = rec['result']
@@ -646,9 +859,10 @@ class Run:
         for g in inv:
             rec = g[2]
             call = self.cur_call
-            out.append('inv(%s,%d,%s,%s,%s,[%s])' % (self.who(call['sender']), call['serial'], hs(call['path']),
-                                                    hs(rec['iface']), hs(rec['member']),
-                                                    ','.join(tok(a) for a in rec['args'])))
+            seen_sender = rec['caller'] if rec['caller'] != '-' else call['sender']     # dbusCaller, if asked for
+            out.append('inv(%s,%d,%s,%s,%s,[%s],%d)' % (self.who(seen_sender), call['serial'], hs(call['path']),
+                                                       hs(call.get('iface') or rec['iface']), hs(call['member']),
+                                                       ','.join(tok(a) for a in rec['args']), rec['impl']))
         out += ['exec(%d)' % g[2] for g in group if g[0] == 'exec']
         out += ['sent(%s)' % self.show_msg(g[2], sent=True) for g in group if g[0] == 'send' and g[1] == 'cli:%d' % c]
         for g in group:
@@ -717,6 +931,7 @@ class Run:
                     beh = 'deferred'
                     if inv:
                         rec = inv[0][2]
+                        self.dispatch_decl(rec, m)
                         if 'tok' not in rec:
                             self.unenc_lines(rec)
                             beh = self.result_text(rec)
@@ -758,9 +973,10 @@ class Run:
             # interfaces given by NAME: introspection unless every name is in DBusInterface.knownInterfaces
             # (filled by an earlier introspection in this scenario)
             names = [call['iface']]
-            call['cached'] = all(nm in DBusInterface.knownInterfaces for nm in names)
+            call['cached'] = all(nm in net.known_of(c) for nm in names)      # the cache of THAT process
+        dest = spec['wkname'] if call.get('dest_name') and spec.get('wkname') else self.name_of[j]
         with net.as_peer(c):
-            d = self.conns[c].getRemoteObject(self.name_of[j], spec['path'], names)
+            d = self.conns[c].getRemoteObject(dest, spec['path'], names)
 
         def ok(ro):
             call['proxy'] = ro
@@ -824,21 +1040,28 @@ class Run:
         c, j = call['caller'], spec['client']
         net = self.net
         lines, expect = [], []
+        if call.get('reuse') is not None and 'proxy' in self.calls[call['reuse']]:
+            call['proxy'] = self.calls[call['reuse']]['proxy']        # the same RemoteDBusObject again
+        dest = spec['wkname'] if call.get('dest_name') and spec.get('wkname') else self.name_of[j]
         if 'proxy' not in call:
             path = spec['path'] + ('/nope' if call['wrong'] == 'path' else '')
             with net.as_peer(c):
-                d = self.conns[c].getRemoteObject(self.name_of[j], path, self.explicit_ifaces(call))
+                d = self.conns[c].getRemoteObject(dest, path, self.explicit_ifaces(call))
             got = []
             d.addCallback(got.append)
             call['proxy'] = got[0]
+            for k2 in self.waiting.pop(k, []):
+                self.actions.append(('call', k2))
         ro = call['proxy']
         args = [valcodec.from_line(a) for a in call['args']]
-        member = call['member'] + ('X' if call['wrong'] == 'member' else '')
+        member = call['member'] + ('X' if (call['wrong'] == 'member' or call.get('refuse') == 'nomember') else '')
         if call['wrong'] == 'nargs':
             args = args + [1]
         kwargs = {}
         if call['kw'] is not None:
             kwargs['interface'] = call['kw']
+        if call.get('timeout'):
+            kwargs['timeout'] = call['timeout']
         # the model's view of the proxy: the interface list the real proxy holds
         decl = None
         for i in ro.interfaces:
@@ -879,7 +1102,8 @@ class Run:
                 def finished(kind, val):
                     net.log.append(('done', 'cli:%d' % c, k, kind, val))
                     # the outer method answers now, inside the completion of the nested call
-                    nrec['result'] = nrec['relay_value'] if kind == 'ok' else ('raised', 'BoomError', 'relay failed')
+                    nrec['result'] = (nrec['relay_value'] if kind == 'ok'
+                                      else ('raised', 'BoomError', 'relay failed', ['relay failed']))
                     net.log.append(('syncresolve', 'cli:%d' % nj, ntok, nrec))
                     nrec['resolved'] = True
                     if nrec['result'][0] == 'value':
@@ -917,7 +1141,7 @@ class Run:
             if rec['result'][0] == 'value':
                 d.callback(rec['result'][1])
             else:
-                d.errback(EXC_CLASSES[rec['result'][1]](rec['result'][2]))
+                d.errback(EXC_CLASSES[rec['result'][1]](*rec['result'][3]))
         entries = net.log[:]
         del net.log[:]
         eff = self.effects(entries, j)
@@ -1021,11 +1245,18 @@ class Run:
             else:
                 self.flag('client-crash', 'a client raised %s in dataReceived: %s' % (net.crashes[0][1], net.crashes[0][2]),
                           observed=[list(c) for c in net.crashes], expected='no exception')
-            return
+            # (no early return: the calls are judged one by one as well)
         for k, call in enumerate(self.calls):
             if call['how'] in ('introspect', 'byname') and 'proxy' not in call:
                 self.flag('introspection-failed', 'getRemoteObject(busName, path) did not produce a proxy',
                           observed=repr(call.get('proxy_error')), expected='a proxy')
+                continue
+            if call.get('refuse'):
+                if call.get('sent'):
+                    self.flag('proxy-accepts-undeclared-method',
+                              'the proxy sent a call for %s (interface= %r) although no listed interface selected by '
+                              'the keyword has that member' % (call['member'], call['kw']),
+                              observed=call.get('issue'), expected='AttributeError')
                 continue
             if not call.get('sent'):
                 if (not call['wrong'] and not call['bad_args']
@@ -1052,19 +1283,24 @@ class Run:
                           observed=len(invs), expected=1)
                 continue
             rec = invs[0]
-            if rec['iface'] != call.get('chosen_iface') or rec['member'] != call['member']:
-                self.flag('wrong-method-invoked', 'the exporter ran %s.%s for a proxy call of %s.%s'
-                          % (rec['iface'], rec['member'], call.get('chosen_iface'), call['member']),
-                          observed=[rec['iface'], rec['member']], expected=[call.get('chosen_iface'), call['member']])
+            bound = doc_bound(self.layouts[call['export']], call.get('chosen_iface'), call['member'])
+            if rec['impl'] != bound:
+                self.flag('wrong-method-invoked',
+                          'the exporter ran function %d (written for %s.%s) for a proxy call of %s.%s; the documented '
+                          'binding order gives function %r' % (rec['impl'], rec['iface'], rec['member'],
+                                                               call.get('chosen_iface'), call['member'], bound),
+                          observed=rec['impl'], expected=bound)
+                continue
+            if rec['iface'] != call.get('chosen_iface'):
+                # documented quirk: a plain dbus_<member> written for another interface serves this one too; what it
+                # returns is typed for its own declaration - nothing more is demanded
                 continue
             sent_args = [wire_norm(valcodec.from_line(a)) for a in call['args']]
             if not py_equal(sent_args, [wire_norm(a) for a in rec['args']]):
                 self.flag('args-differ', 'the exported method received arguments different from those passed to the proxy',
                           observed=repr(rec['args']), expected=repr(sent_args))
                 continue
-            if rec['caller'] != '-' and rec['caller'] != self.name_of[call['caller']]:
-                self.flag('caller-differs', 'dbusCaller is not the unique name of the calling client',
-                          observed=rec['caller'], expected=self.name_of[call['caller']])
+            # (dbusCaller is compared by the correspondence check only: the sender stamp is C14's statement)
             kind, val = comps[0]
             res = rec['result']
             if res[0] == 'value':
@@ -1095,32 +1331,49 @@ class Run:
                 if kind != 'fail' or not isinstance(val.value, error.RemoteError):
                     self.flag('error-not-mirrored', 'the method raised but the proxy call did not fail with RemoteError',
                               observed=self.outcome_text(kind, val), expected=want_name)
-                elif val.value.errName != want_name or val.value.message != res[2]:
+                elif val.value.errName != want_name or val.value.message != escaped(res[2]):
                     self.flag('error-not-mirrored', 'the RemoteError does not mirror the raised exception',
-                              observed=[val.value.errName, val.value.message], expected=[want_name, res[2]])
+                              observed=[val.value.errName, val.value.message], expected=[want_name, escaped(res[2])])
 
 
 # ============================================================================ enumeration / comparison
 def exhaustive_runs(scn, limit):
-    """All message-granular schedules of a scenario (stateless DFS), at most `limit`."""
+    """All message-granular schedules of a scenario (stateless DFS).  When there are more than `limit`, the DFS -
+    which backtracks from the LAST choice and so varies only the tail - is stopped at limit/2 and the other half
+    is spent on uniformly random message-granular schedules, which vary the early choices as well."""
     prefix = []
     runs = []
     complete = True
+    seen = set()
     while True:
         ch = Chooser(prefix, lambda opts: (0, None))
         r = Run(scn, ch, message_granular=True)
         r.execute()
         runs.append(r)
-        if len(runs) >= limit:
-            complete = False
-            break
+        seen.add(tuple(x[0] for x in ch.taken))
         taken, counts = ch.taken, ch.counts
         p = len(taken) - 1
         while p >= 0 and taken[p][0] + 1 >= counts[p]:
             p -= 1
         if p < 0:
             break
+        if len(runs) >= max(1, limit // 2):
+            complete = False
+            break
         prefix = [list(x) for x in taken[:p]] + [[taken[p][0] + 1, None]]
+    if not complete:
+        rng = random.Random('dfs-cut/%r' % (scn['vseed'],))
+        tries = 0
+        while len(runs) < limit and tries < 3 * limit:
+            tries += 1
+            ch = Chooser([], lambda opts: (rng.randrange(len(opts)), None))
+            r = Run(scn, ch, message_granular=True)
+            r.execute()
+            key = tuple(x[0] for x in ch.taken)
+            if key in seen:
+                continue
+            seen.add(key)
+            runs.append(r)
     return runs, complete
 
 
@@ -1170,8 +1423,17 @@ def report(ctx, stream, runs):
         ctx.stat('clients=%d' % r.scn['n'])
         ctx.stat('calls=%d' % len(r.scn['calls']))
         ctx.stat('msgsteps=%d' % min(40, 10 * (len(r.steps) // 10)))
+        for e in r.scn['exports']:
+            ctx.stat('layout=' + e.get('layout', 'plain'))
+        ctx.stat('big-endian-peers=%d' % len(r.scn.get('big_endian', [])))
         for c in r.calls:
-            ctx.stat('proxy=' + c['how'] + ('-wrong' if c['wrong'] else ''))
+            ctx.stat('proxy=' + c['how'] + ('-wrong' if c['wrong'] else '') + ('-reused' if c.get('reuse') is not None else ''))
+            if c.get('dest_name'):
+                ctx.stat('destination=well-known-name')
+            if c.get('timeout'):
+                ctx.stat('timeout=given')
+            if c.get('refuse'):
+                ctx.stat('refuse=' + c['refuse'])
             ctx.stat('issue=' + str(c.get('issue', '?')).split(' ')[0])
             for iv in c.get('invocations', []):
                 ctx.stat('behaviour=' + iv['kind'])
